@@ -85,6 +85,7 @@ pub fn quiet_panics() {
 
 const WS: [&[u8]; 6] = [b"", b"", b" ", b"\n", b"\t \r\n", b"  "];
 
+#[derive(Clone)]
 pub struct GenCfg {
     pub max_depth: usize,
     pub max_items: usize,
